@@ -222,6 +222,10 @@ template<class Src, class Dest, class Tag, How how>
 
 template<class Rep, int E>
 using SI = scaled_integer<Rep, power<E>>;
+using E15 = cnl::elastic_integer<15>;
+using E31 = cnl::elastic_integer<31>;
+using OVS = cnl::overflow_integer<int, cnl::saturated_overflow_tag>;
+using W100 = cnl::wide_integer<100>;
 using f32 = float;
 using f64 = double;
 using f80 = long double;
